@@ -539,6 +539,11 @@ func encodeCase(c *core.Ctx, enc bool, vs []val) ([]mock.Frame, bool) {
 		if f.EOM != (i == len(st.Out)-1) {
 			c.OracleFail("eom-placement", "EOM flag not exactly on the last frame", desc)
 		}
+		// C01's typed clause: every frame handed to the stream is within the stream sender's limit
+		c.OracleCheck()
+		if len(f.Data) > message.MaxFrameSize {
+			c.OracleFail("frame-too-large", fmt.Sprintf("the writer handed a %d-byte frame to the stream (limit %d)", len(f.Data), message.MaxFrameSize), desc)
+		}
 	}
 	return st.Out, true
 }
@@ -1114,6 +1119,11 @@ func replay(raw json.RawMessage) error {
 	}
 	if err := m.FinishMessage(ctx); err != nil {
 		return err
+	}
+	for _, f := range st.Out {
+		if len(f.Data) > message.MaxFrameSize {
+			return fmt.Errorf("the writer handed a %d-byte frame to the stream (limit %d)", len(f.Data), message.MaxFrameSize)
+		}
 	}
 	all := concat(st.Out)
 	if !hasNonFinite(d.Vals) && !bytes.Equal(all, specEncode(d.Enc, d.Vals)) {
